@@ -315,6 +315,23 @@ func randNPPorts(r *rng, f *Features, toIP bool) []netv1.NetworkPolicyPort {
 	if (!f.Broad && r.chance(1, 3)) || (f.Broad && r.chance(1, 4)) {
 		return nil
 	}
+	if f.Broad && r.chance(1, 4) {
+		// shapes whose union is sensitive to canonical forms: every protocol spelled out in full, one or two
+		// protocols in full, a lone named port (which may not resolve on the pod it meets)
+		tcp, udp, sctp := corev1.ProtocolTCP, corev1.ProtocolUDP, corev1.ProtocolSCTP
+		switch k := r.intn(4); {
+		case k == 0:
+			return []netv1.NetworkPolicyPort{{Protocol: &tcp}, {Protocol: &udp}, {Protocol: &sctp}}
+		case k == 1:
+			return []netv1.NetworkPolicyPort{{Protocol: &udp}, {Protocol: &sctp}}
+		case k == 2 && f.NamedPorts && !toIP:
+			v := intstr.FromString(pick(r, []string{"http", "metrics", "dns"}))
+			pr := pick(r, protos)
+			return []netv1.NetworkPolicyPort{{Protocol: &pr, Port: &v}}
+		default:
+			return []netv1.NetworkPolicyPort{{Protocol: &tcp}}
+		}
+	}
 	var res []netv1.NetworkPolicyPort
 	n := r.between(1, 2)
 	for i := 0; i < n; i++ {
